@@ -1,4 +1,4 @@
-//! module `poly` (serves C19, polyline part) — `Polyline::points()`.
+//! module `poly` (serves C19, polyline part; C07: `poly.translated` ops only) — `Polyline::points()`.
 //!
 //! Streams (compared with the Lean model `EG.Model.Polyline`):
 //!   poly.points n x y x y ...            -> points of `Polyline::new(&vertices).points()` in order
@@ -74,7 +74,9 @@ impl Module for M {
         "all vertex lists of length 0..=N over a g x g grid (quick: N=4 on 3x3 and N=3 on 4x4; thorough: N=5 on 3x3, N=4 on 4x4), \
          i.e. including repeated vertices and reversals, then seeded random polylines with 0..=6 vertices, coordinates up to \
          +-300, forced repeats / reversals, and translated polylines; non-trivial = at least 3 vertices and at least 2 \
-         distinct ones; distinct = distinct op text"
+         distinct ones; distinct = distinct op text. C07: only poly.translated - all lists of 0..=3 vertices on a 3x3 grid \
+         crossing the origin with 6 non-zero offsets rotating, then seeded random ones (0..=6 vertices within +-300, offsets \
+         within +-300; quick 300, thorough 5000)"
     }
 
     fn generate(&self, pid: &str, tier: Tier, rng: &mut Rng, emit: &mut dyn FnMut(String)) {
